@@ -52,7 +52,7 @@ func verifC16Cache() {
 	clock := int64(vUint32()) + 1_000_000 // seconds
 	timeNow = func() time.Time { return time.Unix(clock, 0) }
 	failing := false
-	failKind := vInt(0, 2)
+	failKind := vInt(0, 2-vTier()) // (thorough: longer histories, two kinds of failure)
 	version := 0
 	ttlA, ttlB := vUint32(), vUint32()
 	two := vBool()
@@ -67,11 +67,11 @@ func verifC16Cache() {
 		queries++
 		if failing {
 			lastAskOK = false
-			switch failKind { // the upstream fails: no response at all, SERVFAIL, or a response code without a documented error
+			switch failKind { // the upstream fails: no response at all, a response code without a documented error, or SERVFAIL
 			case 1:
-				return &dns.Message{QR: 1, RCode: 2}, nil
-			case 2:
 				return &dns.Message{QR: 1, RCode: 9}, nil
+			case 2:
+				return &dns.Message{QR: 1, RCode: 2}, nil
 			}
 			return nil, errVTransport
 		}
